@@ -65,6 +65,134 @@ func vsCasContainer(g *VGhost, off uint16, nam, cim string) bool {
 	if name == "" {
 		name = cim
 	}
-	return g.Trunc && g.NC == 8 && vsIsSync(g.C0) && vsIsTypeBin(g.C1) && vsName6(g.C2, name) && vsIsSync(g.C3) &&
-		vsIsU16(g.C4, off) && vsIsU16(g.C5, off+uint16(len(g.In))-1) && vsIsU16(g.C6, off) && vsSame(g.C7, g.In)
+	return g.Trunc && vsStreamLen(g) == 38+len(g.In) && vsSyncAt(g, 0) && vsTypeBinAt(g, 8) && vsName6At(g, 18, name) && vsSyncAt(g, 24) &&
+		vsU16At(g, 32, off) && vsU16At(g, 34, off+uint16(len(g.In))-1) && vsU16At(g, 36, off) && vsBodyAt(g, 38)
+}
+
+func vsSyncAt(g *VGhost, p int) bool {
+	return vsStreamAt(g, p) == 0x1f && vsStreamAt(g, p+1) == 0xa6 && vsStreamAt(g, p+2) == 0xde && vsStreamAt(g, p+3) == 0xba &&
+		vsStreamAt(g, p+4) == 0xcc && vsStreamAt(g, p+5) == 0x13 && vsStreamAt(g, p+6) == 0x7d && vsStreamAt(g, p+7) == 0x74
+}
+
+func vsTypeBinAt(g *VGhost, p int) bool {
+	return vsStreamAt(g, p) == 0xd0 && vsStreamAt(g, p+1) == 0xd0 && vsStreamAt(g, p+2) == 0xd0 && vsStreamAt(g, p+3) == 0xd0 && vsStreamAt(g, p+4) == 0xd0 &&
+		vsStreamAt(g, p+5) == 0xd0 && vsStreamAt(g, p+6) == 0xd0 && vsStreamAt(g, p+7) == 0xd0 && vsStreamAt(g, p+8) == 0xd0 && vsStreamAt(g, p+9) == 0xd0
+}
+
+func vsName6At(g *VGhost, p int, name string) bool {
+	return vsStreamAt(g, p) == vsNameByte(name, 0) && vsStreamAt(g, p+1) == vsNameByte(name, 1) && vsStreamAt(g, p+2) == vsNameByte(name, 2) &&
+		vsStreamAt(g, p+3) == vsNameByte(name, 3) && vsStreamAt(g, p+4) == vsNameByte(name, 4) && vsStreamAt(g, p+5) == vsNameByte(name, 5)
+}
+
+// The output file is the concatenation of the chunks, whatever their number
+// and sizes (how the program batches its writes is not part of the format).
+func vsStreamLen(g *VGhost) int {
+	n := 0
+	if g.NC > 0 {
+		n += len(g.C0)
+	}
+	if g.NC > 1 {
+		n += len(g.C1)
+	}
+	if g.NC > 2 {
+		n += len(g.C2)
+	}
+	if g.NC > 3 {
+		n += len(g.C3)
+	}
+	if g.NC > 4 {
+		n += len(g.C4)
+	}
+	if g.NC > 5 {
+		n += len(g.C5)
+	}
+	if g.NC > 6 {
+		n += len(g.C6)
+	}
+	if g.NC > 7 {
+		n += len(g.C7)
+	}
+	if g.NC > 8 {
+		n += len(g.C8)
+	}
+	if g.NC > 9 {
+		n += len(g.C9)
+	}
+	return n
+}
+
+// vsStreamAt: byte i of the output file (0 outside).
+func vsStreamAt(g *VGhost, i int) uint8 {
+	if i < 0 {
+		return 0
+	}
+	if g.NC > 0 {
+		if i < len(g.C0) {
+			return g.C0[i]
+		}
+		i -= len(g.C0)
+	}
+	if g.NC > 1 {
+		if i < len(g.C1) {
+			return g.C1[i]
+		}
+		i -= len(g.C1)
+	}
+	if g.NC > 2 {
+		if i < len(g.C2) {
+			return g.C2[i]
+		}
+		i -= len(g.C2)
+	}
+	if g.NC > 3 {
+		if i < len(g.C3) {
+			return g.C3[i]
+		}
+		i -= len(g.C3)
+	}
+	if g.NC > 4 {
+		if i < len(g.C4) {
+			return g.C4[i]
+		}
+		i -= len(g.C4)
+	}
+	if g.NC > 5 {
+		if i < len(g.C5) {
+			return g.C5[i]
+		}
+		i -= len(g.C5)
+	}
+	if g.NC > 6 {
+		if i < len(g.C6) {
+			return g.C6[i]
+		}
+		i -= len(g.C6)
+	}
+	if g.NC > 7 {
+		if i < len(g.C7) {
+			return g.C7[i]
+		}
+		i -= len(g.C7)
+	}
+	if g.NC > 8 {
+		if i < len(g.C8) {
+			return g.C8[i]
+		}
+		i -= len(g.C8)
+	}
+	if g.NC > 9 {
+		if i < len(g.C9) {
+			return g.C9[i]
+		}
+	}
+	return 0
+}
+
+func vsU16At(g *VGhost, i int, v uint16) bool {
+	return vsStreamAt(g, i) == uint8(v) && vsStreamAt(g, i+1) == uint8(v>>8)
+}
+
+// vsBodyAt: the image follows the hdr header bytes, unmodified.
+func vsBodyAt(g *VGhost, hdr int) bool {
+	return vsForallIdx(func(i int) bool { return i < 0 || i >= len(g.In) || vsStreamAt(g, hdr+i) == g.In[i] })
 }
